@@ -2,6 +2,7 @@
 //! fresh instances under rewound entropy and frozen clock; C15 — multi-hop relay of
 //! presentations compared with the direct selection.
 
+use crate::faults::{self, Fault, Part, Reser};
 use crate::gen::{self, GenCfg, Strat};
 use crate::keys;
 use crate::model;
@@ -63,6 +64,10 @@ pub struct HistHolderScn {
     pub alg: Option<String>,
     pub cred: IssueCall,
     pub calls: Vec<PresentCall>,
+    /// what happened to the SD-JWT before the wallet stored it (mostly nothing): a holder built
+    /// from a damaged SD-JWT — if one can be built at all — must behave like a fresh one, too
+    #[serde(default)]
+    pub source_faults: Vec<Fault>,
 }
 
 fn failing_issue_call(rng: &mut Rng, now: i64) -> IssueCall {
@@ -84,6 +89,29 @@ fn failing_issue_call(rng: &mut Rng, now: i64) -> IssueCall {
         2 => IssueCall { claims: json!({"iss": "https://issuer-a.example", "exp": now + 7200, "x": {"_sd": ["abc"]}}), strat: Strat::Top, holder_key: Some("ecC".into()), decoys: rng.bool(), fmt: rand_fmt(rng) },
         _ => IssueCall { claims: json!({"iss": "https://issuer-a.example", "exp": now + 7200, "arr": [{"_sd": 1}]}), strat: Strat::All, holder_key: None, decoys: true, fmt: rand_fmt(rng) },
     }
+}
+
+/// A credential with hundreds of disclosures (a transcript, a membership list): sizes beyond
+/// any table, buffer or capacity an instance might keep between calls.
+fn big_issue_call(rng: &mut Rng, now: i64) -> IssueCall {
+    let n = *rng.pick(&[70usize, 130, 200, 300, 520]);
+    let mut claims = Map::new();
+    claims.insert("iss".into(), json!("https://issuer-a.example"));
+    claims.insert("exp".into(), json!(now + 7200));
+    match rng.usize(3) {
+        0 => {
+            claims.insert("records".into(), Value::Array((0..n).map(|i| json!(format!("r{}", i))).collect()));
+        }
+        1 => {
+            for i in 0..n {
+                claims.insert(format!("c{}", i), json!(i));
+            }
+        }
+        _ => {
+            claims.insert("members".into(), Value::Array((0..n / 2).map(|i| json!({"id": i})).collect()));
+        }
+    }
+    IssueCall { claims: Value::Object(claims), strat: if rng.chance(3, 4) { Strat::All } else { Strat::Top }, holder_key: None, decoys: rng.chance(1, 4), fmt: rand_fmt(rng) }
 }
 
 pub fn gen_c11(rng: &mut Rng, tier: Tier) -> Result<Value, serde_json::Error> {
@@ -113,7 +141,13 @@ pub fn gen_c11(rng: &mut Rng, tier: Tier) -> Result<Value, serde_json::Error> {
     if rng.bool() {
         let mut calls = Vec::new();
         for _ in 0..n {
-            calls.push(if rng.chance(1, 5) { failing_issue_call(rng, now) } else { mk_issue(rng) });
+            calls.push(if rng.chance(1, 5) {
+                failing_issue_call(rng, now)
+            } else if rng.chance(1, 12) {
+                big_issue_call(rng, now)
+            } else {
+                mk_issue(rng)
+            });
         }
         serde_json::to_value(HistIssuerScn { kind: "hist_issuer".into(), check: "C11".into(), entropy_seed: rng.next_u64(), clock_base: now, key, alg, calls })
     } else {
@@ -186,7 +220,20 @@ pub fn gen_c11(rng: &mut Rng, tier: Tier) -> Result<Value, serde_json::Error> {
             }
             calls.push(call);
         }
-        serde_json::to_value(HistHolderScn { kind: "hist_holder".into(), check: "C11".into(), entropy_seed: rng.next_u64(), clock_base: now, key, alg, cred, calls })
+        let source_faults = if rng.chance(1, 5) {
+            let at_end = 1000; // taken modulo the list length + 1: positions behind the first
+            vec![match rng.usize(6) {
+                0 => Fault::DupDisclosure { i: rng.usize(8), at: at_end - rng.usize(3) },
+                1 => Fault::GarbageDisclosure { text: rng.pick(&["", "e30", "W10", "!!!", "bm90LWpzb24"]).to_string(), at: at_end - rng.usize(3) },
+                2 => Fault::Reserialize { i: 1 + rng.usize(8), mode: rng.pick(&[Reser::TrailingData(0), Reser::Padding, Reser::ChangeSalt, Reser::Whitespace]).clone() },
+                3 => Fault::ForgeDisclosure { arity: if rng.bool() { 2 } else { 3 }, name: "forged".into(), value: json!(1), at: at_end - rng.usize(3) },
+                4 => Fault::CorruptChar { part: Part::Disc(1 + rng.usize(6)), pos: rng.usize(60), op: msg_gen::rand_char_op(rng) },
+                _ => Fault::Truncate { part: Part::Disc(1 + rng.usize(6)), len: rng.usize(40) },
+            }]
+        } else {
+            Vec::new()
+        };
+        serde_json::to_value(HistHolderScn { kind: "hist_holder".into(), check: "C11".into(), entropy_seed: rng.next_u64(), clock_base: now, key, alg, cred, calls, source_faults })
     }
 }
 
@@ -388,6 +435,20 @@ fn exec_holder(scn: &HistHolderScn) -> RunReport {
         cx.rep.count("creds_not_issued");
         return finish(cx, w, t0);
     };
+    let sdjwt = if scn.source_faults.is_empty() {
+        sdjwt
+    } else {
+        let Some(mut m) = Message::parse(&sdjwt, c.fmt) else { return finish(cx, w, t0) };
+        for f in &scn.source_faults {
+            if faults::apply(f, &mut m, &[], &mut w, t0) {
+                cx.rep.count(&format!("fault.{}", f.kind()));
+            }
+        }
+        match m.serialize(c.fmt) {
+            Some(s) => s,
+            None => return finish(cx, w, t0),
+        }
+    };
     let reused = match w.holder_new(node, &sdjwt, c.fmt) {
         Out::Ok(h) => h,
         _ => {
@@ -395,6 +456,9 @@ fn exec_holder(scn: &HistHolderScn) -> RunReport {
             return finish(cx, w, t0);
         }
     };
+    if !scn.source_faults.is_empty() {
+        cx.rep.count("probe.holder_built_from_damaged_sd_jwt");
+    }
     let hist_hash = hash_str(&serde_json::to_string(&scn.calls).unwrap_or_default()) ^ hash_str(&c.claims.to_string());
     let mut earlier_kb: Vec<String> = Vec::new();
     for (k, call) in scn.calls.iter().enumerate() {
@@ -555,8 +619,18 @@ pub fn gen_c15(rng: &mut Rng, _tier: Tier) -> Result<Value, serde_json::Error> {
     let key = rng.pick(&["ecA", "edA", "hsA"]).to_string();
     let alg = Some(keys::alg_of(&key).to_string());
     let cfg = GenCfg { hazard_pm: 0, ..GenCfg::draw(rng) };
-    let claims = gen::gen_claims(rng, &cfg, "https://issuer-a.example", now);
+    let mut claims = gen::gen_claims(rng, &cfg, "https://issuer-a.example", now);
+    // sometimes a long list (a transcript, a list of memberships): positions beyond any
+    // machine-word bitmap or small table
+    let long_list = rng.chance(1, 12);
+    if long_list {
+        let n = *rng.pick(&[33usize, 65, 70, 129, 200]);
+        if let Some(o) = claims.as_object_mut() {
+            o.insert("records".into(), Value::Array((0..n).map(|i| if rng.chance(1, 8) { json!({"id": i}) } else { json!(i) }).collect()));
+        }
+    }
     let strat = match rng.usize(4) {
+        _ if long_list => Strat::All,
         0 => gen::gen_strategy(rng, &claims),
         1 => Strat::Top,
         _ => Strat::All,
